@@ -83,8 +83,32 @@ def detect(seed, props, tier="quick"):
     return out_all
 
 
+def benign(seed, props, tier="quick"):
+    """behaviour-preserving refactoring: suite must pass, checks must raise no alarm (exit 0; exit 2 = undecided is reported)"""
+    d = scratch("b")
+    out_all = {}
+    try:
+        rc, out = sh("git init -q . && git apply --whitespace=nowarn %s" % os.path.abspath(os.path.join(seed, "patch.diff")), d)
+        assert rc == 0, out
+        rc, out = sh("cargo test --workspace --no-fail-fast --offline 2>&1", d)
+        out_all["suite"] = {"rc": rc, "summary": tests_summary(out)}
+        sh("rm -rf target", d)
+        for p in props:
+            rc, out = sh("./check %s --tier %s --repo %s 2>&1" % (p, tier, d), VERIF, timeout=7200)
+            notes = re.findall(r"^(FAIL|UNDECIDED)\s+(\S+)", out, flags=re.M)
+            down = re.findall(r"^PASS\s+(\S+)\s+\[V bounded:lane-V undecided", out, flags=re.M)
+            out_all[p] = {"rc": rc, "not_pass": notes, "downgraded": down}
+            print(os.path.basename(os.path.abspath(seed)), p, "rc=%d" % rc, notes, "downgraded:", down)
+    finally:
+        shutil.rmtree(d, ignore_errors=True)
+    with open(os.path.join(seed, "benign_result.json"), "w") as f:
+        json.dump(out_all, f, indent=1)
+
+
 if __name__ == "__main__":
     if sys.argv[1] == "confirm":
         sys.exit(0 if confirm(sys.argv[2]) else 1)
+    elif sys.argv[1] == "benign":
+        benign(sys.argv[2], sys.argv[3:], os.environ.get("TIER", "quick"))
     elif sys.argv[1] == "detect":
         detect(sys.argv[2], sys.argv[3:], os.environ.get("TIER", "quick"))
